@@ -42,6 +42,13 @@ def C01(ctx):
         n = 8 * R.randrange(1, 6); z = R.randrange(0, 8)
         d = R.randbytes(n - z - 1) + b"\x80" + bytes(z)
         cases.append(op_generate_ac(g.key(), d, R.choice(["EMV", "VISA"]), None, gen="ends in 80 00* at a block edge"))
+    # beyond 64 KiB and at exactly 1 MiB (chunked back-end updates); run first *and* last so that whatever
+    # a long call leaves behind is seen by the calls that follow it
+    big = []
+    for n in ([65536, 70001] if not ctx.thorough else [65535, 65536, 65537, 65544, 70001, 131072, 200001]):
+        for p in (("VISA", "EMV") if n % 65536 == 0 else (R.choice(["EMV", "VISA"]),)):
+            big.append(op_generate_ac(g.key(), R.randbytes(n), p, None, gen="message beyond 64 KiB / exactly k MiB"))
+    cases = big[: len(big) // 2] + cases + big[len(big) // 2:]
     # out-of-domain stream (class only)
     for _ in range(ctx.n(600, 3000)):
         c = R.random()
@@ -51,7 +58,9 @@ def C01(ctx):
             cases.append(op_generate_ac(g.key(), g.msg(), "X", None, obj=R.choice([x for x in NON_MEMBERS if not isinstance(x, ac.PaddingType)]), gen="malformed:padding type", proj="class"))
         else:
             cases.append(op_mac3(g.key()[:8], g.key()[:8], g.msg(), R.choice([0, 3, -1, -2, 4, 255]), None, gen="malformed:mac padding", proj="class"))
+    mib_probe(ctx, g, "before")
     ctx.run_cases(cases)
+    mib_probe(ctx, g, "after")
     # relational: truncation is the leftmost bytes of the 8-byte value
     for _ in range(200):
         k = g.key(); d = g.msg()
@@ -59,6 +68,29 @@ def C01(ctx):
         for l in (4, 5, 6, 7, 8):
             ctx.check("leftmost truncation", ac.generate_ac(k, d, None, l) == full[:l],
                       f"generate_ac({hx(k)},{hx(d)},None,{l}) is not the {l} leftmost bytes of the 8-byte value")
+
+
+def fast_alg3(k, padded):
+    """Algorithm 3 over padded data using the library-independent CBC of `cryptography`"""
+    from cryptography.hazmat.primitives.ciphers import Cipher, algorithms, modes
+    h = Cipher(algorithms.TripleDES(k[:8] * 3), modes.CBC(bytes(8))).encryptor().update(padded)[-8:]
+    d = Cipher(algorithms.TripleDES(k[8:] * 3), modes.ECB()).decryptor().update(h)
+    return Cipher(algorithms.TripleDES(k[:8] * 3), modes.ECB()).encryptor().update(d)
+
+
+def mib_probe(ctx, g, when):
+    """messages of exactly k MiB and just beyond, against an independent reference (the Lean model is not
+    run on megabyte inputs); executed before and after the main stream so that anything a long call leaves
+    behind is seen by the calls that follow"""
+    R = g.R
+    for n in ([1 << 20, (1 << 20) + 5] if not ctx.thorough else [1 << 20, (1 << 20) + 5, (1 << 20) + 8, 1 << 21, 3 << 20]):
+        d = R.randbytes(n); k = g.fresh_key()
+        for pt, name in ((ac.PaddingType.VISA, "VISA"), (ac.PaddingType.EMV, "EMV")):
+            padded = d + bytes(-n % 8) if name == "VISA" else d + b"\x80" + bytes(-(n + 1) % 8)
+            with ctx.guard("cryptogram of a megabyte message", f"generate_ac {name} len={n} ({when})"):
+                got = ac.generate_ac(k, d, pt)
+                ctx.check("cryptogram of a megabyte message", got == fast_alg3(k, padded),
+                          f"generate_ac(key={hx(k)}, <{n} bytes seed={ctx.seed}>, {name}) ({when} the main stream)")
 
 
 def C02(ctx):
@@ -70,6 +102,15 @@ def C02(ctx):
             p = None if plen is None else R.randbytes(plen)
             cases.append(op_arpc2(k, q, csu, p, gen="arpc2 pad length None,0..8"))
     ctx.exhaustive_dims.append("proprietary data length None,0..8")
+    # ARQC || CSU || PAD ending in 80 00* (the bytes method-2 padding itself produces), every tail length
+    for plen in range(0, 9):
+        for k80 in range(1, 9):
+            for _ in range(ctx.n(3, 20)):
+                body = bytearray(R.randbytes(12 + plen))
+                body[len(body) - k80:] = b"\x80" + bytes(k80 - 1)
+                q, csu, p = bytes(body[:8]), bytes(body[8:12]), bytes(body[12:])
+                cases.append(op_arpc2(g.key(), q, csu, p if plen or R.random() < .5 else None, gen="arqc||csu||pad ends in 80 00*"))
+    ctx.exhaustive_dims.append("ARPC 2: proprietary data length 0..8 × trailing 80 00* of every length 1..8")
     for _ in range(ctx.n(4000, 40000)):
         k = g.key(); q = R.choice([R.randbytes(8), bytes(8), b"\xff" * 8])
         rc = R.choice([R.randbytes(2), b"\x00\x10", b"\x30\x30", b"\x01\x02", b"\xff\x00"])
@@ -97,6 +138,9 @@ def C03(ctx):
             for w in ("a", "b"):
                 cases.append(op_mk(w, k, g.form(pan), g.form(psn), gen="grid:pan length 1..19 × psn"))
     ctx.exhaustive_dims.append("PAN length 1..19 × PSN sample (all of None,00..99 in thorough) × options A,B")
+    for n in [20, 24, 33, 64, 100, 1000, 4298, 4299, 4300, 5000, 10001]:
+        for w in ("a", "b"):
+            cases.append(op_mk(w, g.key(), g.form(g.digits(n)), g.form(R.choice([None, "07"])), gen="PAN of 20..10001 digits"))
     rare, tries, letters = gens.rare_pairs(ctx.sub("rare"), ctx.n(60, 600))
     ctx.extra["rare_branch_pairs"] = len(rare); ctx.extra["rare_search_hashes"] = tries; ctx.extra["topup_letters_seen"] = letters
     for p, s in rare:
@@ -135,6 +179,20 @@ def C04(ctx):
     for _ in range(ctx.n(500, 2000)):
         cases.append(op_common_sk(R.choice([g.key(), g.badkey()]), g.sized(8, .6), gen="malformed", proj="class"))
         cases.append(op_visa_sk(R.choice([g.key(), g.badkey()]), g.sized(2, .6), gen="malformed", proj="class"))
+    # one reusable buffer, rewritten in place between calls (ATC stepped in a diversifier; key refilled)
+    for _ in range(ctx.n(20, 200)):
+        k = g.key(); base = R.randbytes(8)
+        conts = [bytes([0, i]) + base[2:] for i in range(0x1C, 0x24)] + [R.randbytes(8) for _ in range(3)]
+        cases += reused_buffer_cases(conts, lambda c, k=k: f"kd.common_sk {hx(k)} {hx(c)}",
+                                     lambda buf, k=k: kd.derive_common_sk(k, buf), "reused diversifier buffer")
+        r = R.randbytes(8)
+        cases += reused_buffer_cases([g.fresh_key() for _ in range(4)], lambda c, r=r: f"kd.common_sk {hx(c)} {hx(r)}",
+                                     lambda buf, r=r: kd.derive_common_sk(buf, r), "reused key buffer")
+        a = R.randbytes(2)
+        cases += reused_buffer_cases([g.fresh_key() for _ in range(3)], lambda c, a=a: f"kd.visa_sk {hx(c)} {hx(a)}",
+                                     lambda buf, a=a: kd.derive_visa_sm_sk(buf, a), "reused key buffer")
+        cases += reused_buffer_cases([R.randbytes(2) for _ in range(4)], lambda c, k=k: f"kd.visa_sk {hx(k)} {hx(c)}",
+                                     lambda buf, k=k: kd.derive_visa_sm_sk(k, buf), "reused ATC buffer")
     ctx.run_cases(cases)
     # a state-carrying TDES helper shows only after a ragged ECB call under the same key
     k = g.fresh_key()
@@ -213,6 +271,21 @@ def C05(ctx):
         b, h = R.choice([(4, 8), (2, 16), (16, 4), (3, 11), (256, 2)])
         a = R.choice([R.randbytes(2), bytes([0, R.randrange(256)]), bytes([R.randrange(256), 0])])
         cases.append(op_tree_sk(k, a, h, b, iv, gen="same key/IV across tree shapes"))
+    # a key and its parity variants under one IV / tree shape (a cache keyed on a parity-normalised key)
+    for _ in range(ctx.n(60, 600)):
+        k = R.choice(g.keys[:5] + [bytes(16)]); iv = R.choice([bytes(16), R.randbytes(16)])
+        b, h = R.choice([(4, 8), (16, 4), (256, 2), (2, 16), (65536, 1)])
+        a = R.randbytes(2)
+        for kk in (k, tools.adjust_key_parity(k), bytes(x ^ 1 for x in k), k):
+            cases.append(op_tree_sk(kk, a, h, b, iv, gen="key and its parity variants"))
+            cases.append(op_tree_sk(kk, bytes([a[0], a[1] ^ 1]), h, b, iv, gen="key and its parity variants"))
+    for _ in range(ctx.n(10, 100)):
+        k = g.key(); iv = bytes(16)
+        cases += reused_buffer_cases([R.randbytes(2) for _ in range(4)], lambda c, k=k, iv=iv: f"kd.tree_sk {hx(k)} {hx(c)} 8 4 {hx(iv)}",
+                                     lambda buf, k=k, iv=iv: kd.derive_emv2000_tree_sk(k, buf, 8, 4, iv), "reused ATC buffer")
+        a = R.randbytes(2)
+        cases += reused_buffer_cases([g.fresh_key() for _ in range(3)], lambda c, a=a, iv=iv: f"kd.tree_sk {hx(c)} {hx(a)} 8 4 {hx(iv)}",
+                                     lambda buf, a=a, iv=iv: kd.derive_emv2000_tree_sk(buf, a, 8, 4, iv), "reused key buffer")
     for _ in range(ctx.n(300, 1500)):
         cases.append(op_tree_sk(R.choice([g.key(), g.badkey()]), g.sized(2, .5), 8, 4, g.sized(16, .5), gen="malformed", proj="class"))
     ctx.run_cases(cases)
@@ -260,8 +333,15 @@ def C06(ctx):
         n = 8 * R.randrange(1, 8); z = R.randrange(0, 8)
         c = R.randbytes(n - z - 1) + b"\x80" + bytes(z)
         cases.append(op_command_mac(g.key(), c, None, gen="ends in 80 00* at a block edge"))
+    for n in ([65536, 70001] if not ctx.thorough else [65535, 65536, 65537, 70001, 131072]):
+        cases.append(op_command_mac(g.key(), R.randbytes(n), None, gen="command beyond 64 KiB"))
     for _ in range(ctx.n(300, 1000)):
         cases.append(op_command_mac(g.badkey(), g.msg(), None, gen="malformed", proj="class"))
+    for n in ([1 << 20] if not ctx.thorough else [1 << 20, (1 << 20) + 3, 1 << 21]):
+        d = R.randbytes(n); k = g.fresh_key()
+        with ctx.guard("script MAC of a megabyte command", f"command_mac len={n}"):
+            ctx.check("script MAC of a megabyte command", sm.generate_command_mac(k, d) == fast_alg3(k, d + b"\x80" + bytes(-(n + 1) % 8)),
+                      f"generate_command_mac(key={hx(k)}, <{n} bytes>)")
     ctx.run_cases(cases)
     # a card recomputing the MAC accepts it (independent Algorithm 3 on cryptography's single DES)
     for _ in range(ctx.n(300, 3000)):
@@ -319,6 +399,10 @@ def C07(ctx):
     ctx.exhaustive_dims.append("data length 0..255 × {VISA, MASTERCARD, EMV}")
     for _ in range(ctx.n(3000, 30000)):
         cases.append(op_encrypt(g.key(), g.msg(200), R.choice(["VISA", "MASTERCARD", "EMV"]), gen="random+reuse"))
+    # beyond 64 KiB for the CBC schemes (no one-byte length prefix to stop them)
+    for n in ([65535, 65536, 65537, 70001] if not ctx.thorough else [65535, 65536, 65537, 65544, 70001, 131072, 200001]):
+        for t in ("MASTERCARD", "EMV"):
+            cases.append(op_encrypt(g.key(), R.randbytes(n), t, gen="data beyond 64 KiB"))
     for _ in range(ctx.n(400, 2000)):
         c = R.random()
         if c < .4:
